@@ -383,6 +383,18 @@ func (r *Runner) Do(s *Step) *Reply {
 			} else {
 				c.State = StCreated
 				r.AllocCfg[c.Key] = []*Config{r.Inst.Cfg}
+				// By design (nri.go maps containers by namespace/pod/container name to recognise restarted containers) a
+				// new container makes an older live one of the same name a "stale instance": it is released and marked
+				// exited. Only same-name pods (re-created while their old sandbox terminates) produce that.
+				if p != nil {
+					for _, k := range r.M.CtrKeys() {
+						o := r.M.Ctrs[k]
+						if op := r.M.Pods[o.Pod]; o != c && o.Live() && o.Name == c.Name && op != nil && op != p && op.Name == p.Name && op.NS == p.NS {
+							o.State = StStopped
+							r.Count("stale_same_name_instances_superseded")
+						}
+					}
+				}
 				if adj != nil {
 					r.checkOptOutMsg(c, adj.GetLinux().GetResources(), "create-adjust")
 					c.Apply(adj.GetLinux().GetResources())
